@@ -25,6 +25,7 @@ from ..simfs import FS
 from ..world import Arena, World, rmtree_real
 
 CAL = "/user/calendars/calendar/"
+OTHER = "/user/contacts/addressbook/"
 KINDS = {"C05": ("W", "W"), "C02": ("Rget", "W"), "C03": ("Wcond", "Wcond"), "C07": ("Rsync", "W"), "C08": ("Rtags", "W"), "C17": ("Rmulti", "W"),
          # two property updates of one collection (different properties: neither may undo the other)
          "C15": ("Wprop", "Wprop")}
@@ -35,8 +36,10 @@ def make_config(prop, seed, tier):
     r = random.Random(H("conccfg", seed))
     return {"seed": seed, "frontend": "aiohttp", "prefix": r.choice(["/", "/dav/"]), "autocreate": "defaults", "strict": True, "listing": True,
             # C17: the other request is a write, or a second multiget asking for other properties
-            "pair": ("Rmulti", "Rmulti2") if (prop == "C17" and r.random() < 0.35) else KINDS[prop],
-            "mode": "await" if KINDS[prop][0].startswith("W") else r.choice(["await", "threads", "threads"]),
+            "pair": ("Rmulti", "Rmulti2") if (prop == "C17" and r.random() < 0.35) else ("Rsync", "Rsync2") if (prop == "C07" and r.random() < 0.25) else KINDS[prop],
+            # (conditional creates also run with worker threads under the scheduler: a create that is
+            # handed to a thread can be overtaken between its check and its write)
+            "mode": r.choice(["await", "await", "threads"]) if prop == "C03" else "await" if KINDS[prop][0].startswith("W") else r.choice(["await", "threads", "threads"]),
             "variants": 10 if tier == "quick" else 60}
 
 
@@ -107,6 +110,9 @@ class ConcRun:
             return {"kind": r.choice(["get", "get", "propfind1"]), "name": r.choice(names)}
         if kind == "Rsync":
             return {"kind": "sync", "data": r.random() < 0.7, "token": r.choice(["", "PRE"])}
+        if kind == "Rsync2":
+            # a sync report on another collection of the same server
+            return {"kind": "sync_other", "data": True}
         if kind == "Rtags":
             return {"kind": "propfind0"}
         if kind == "Rmulti":
@@ -138,6 +144,8 @@ class ConcRun:
         if k == "sync":
             props = (dav.P_GETETAG, dav.P_CALDATA) if req.get("data") else (dav.P_GETETAG,)
             return "REPORT", w.target(CAL), [dav.XML_CT], dav.sync_body(token if req.get("token") == "PRE" else "", props)
+        if k == "sync_other":
+            return "REPORT", w.target(OTHER), [dav.XML_CT], dav.sync_body("", (dav.P_GETETAG, dav.P_ADDRDATA))
         if k == "multiget":
             return "REPORT", w.target(CAL), [dav.XML_CT, ("Depth", "1")], dav.multiget_body("calendar", [w.target(CAL + n) for n in req["names"]])
         raise AssertionError(k)
@@ -199,6 +207,10 @@ class ConcRun:
         for m in plan["pre"]:
             r = w.req("PUT", CAL + m["name"], [("Content-Type", "text/calendar")], m["body"].encode("latin-1"))
             etags[m["name"]] = r.header("ETag")
+        if any(plan[k]["kind"] == "sync_other" for k in "AB"):
+            rr = random.Random(7)
+            for i in range(2):
+                w.req("PUT", OTHER + "c%d.vcf" % i, [("Content-Type", "text/vcard")], gen.vcf(rr, uid="card-%d" % i))
         o = observe_collection(w, CAL, get_bodies=False)
         token = o.tags.get("sync") or ""
         w.shutdown()
@@ -348,6 +360,11 @@ class ConcRun:
                 self.signatures.add(hashlib.sha1(repr((plan["A"]["kind"], plan["B"]["kind"], baton.trace)).encode()).hexdigest()[:16])
         else:
             self.signatures.add(hashlib.sha1(repr((plan["A"]["kind"], plan["B"]["kind"], var["first"], var["ticks"], var["split_body"], var["ticks2"])).encode()).hexdigest()[:16])
+        if any((out.get(k) is not None and out[k].status == 423) for k in "AB"):
+            # refused as locked: an outcome no sequential execution has, and a legitimate one (the
+            # refused request must have no effect - E-SCHED's business)
+            self.count("locked_refusals")
+            return
         match = [o for (o, r, f) in refs if r == res and f == fin]
         if not match:
             match = self.per_resource_match(plan, res, fin, refs)
